@@ -9,6 +9,7 @@ import (
 	"encoding/hex"
 	"encoding/json"
 	"fmt"
+	"io"
 	"math"
 	"math/rand/v2"
 	"strings"
@@ -217,8 +218,8 @@ func genCase(rng *rand.Rand, i int) *kase {
 	k.Store = storeKinds[i%len(storeKinds)]
 
 	// chunk mode first: a 1 MiB + 1 chunk needs content beyond 1 MiB
-	chunkW := []int{20, 10, 12, 15, 4, 31, 8}
-	chunkN := []string{"one", "c1", "c7", "c4096", "c1Mi+1", "random", "bytes.Reader"}
+	chunkW := []int{18, 9, 11, 14, 4, 28, 8, 8}
+	chunkN := []string{"one", "c1", "c7", "c4096", "c1Mi+1", "random", "bytes.Reader", "bytes.Buffer"}
 	k.Rho.Chunk = chunkN[pick(rng, chunkW)]
 	k.Rho.ErrAt = -1
 
@@ -383,7 +384,7 @@ func genCase(rng *rand.Rand, i int) *kase {
 	k.Stream = s
 
 	// reader behaviour
-	if k.Rho.Chunk != "bytes.Reader" {
+	if !k.plainSource() {
 		k.Rho.ZeroReads = rng.IntN(4) == 0
 		k.Rho.EOFWithLast = rng.IntN(4) == 0
 		if rng.IntN(4) == 0 {
@@ -468,7 +469,38 @@ func genCase(rng *rand.Rand, i int) *kase {
 	return k
 }
 
-func (k *kase) reader(rng *rand.Rand) *hreader { return newHReader(k.Stream, k.Rho, rng) }
+// plainSource: the reader is a standard-library in-memory reader handed over unwrapped.
+func (k *kase) plainSource() bool {
+	return k.Rho.Chunk == "bytes.Reader" || k.Rho.Chunk == "bytes.Buffer"
+}
+
+// source builds the case's reader over a private copy of the stream and returns a
+// function that plays the caller reusing its buffers once the library call has
+// returned: the backing array is overwritten and a bytes.Buffer is Reset and refilled.
+// Oracles keep comparing with k.Stream, which is never handed to the library.
+func (k *kase) source(rng *rand.Rand) (io.Reader, func()) {
+	src := append(make([]byte, 0, len(k.Stream)+8), k.Stream...)
+	scribble := func() {
+		for i := range src {
+			src[i] = ^src[i]
+		}
+	}
+	switch k.Rho.Chunk {
+	case "bytes.Reader":
+		return bytes.NewReader(src), scribble
+	case "bytes.Buffer":
+		b := bytes.NewBuffer(src)
+		return b, func() {
+			n := len(src)
+			b.Reset()
+			for i := 0; i < n+8; i++ {
+				b.WriteByte(byte(0xA5 ^ i))
+			}
+			scribble()
+		}
+	}
+	return newHReader(src, k.Rho, rng), scribble
+}
 
 func short(b []byte) string {
 	if len(b) <= 24 {
